@@ -190,8 +190,12 @@ class FunctionVC:
                     return
                 b2 = dict(bindings)
                 b2['op'] = args[1] if len(args) > 1 else None
+                b2['call_args'] = tuple(args)
                 for kw_name, kw_val in kwargs.items():
                     b2['call_' + kw_name] = kw_val
+                if ('alias', callee) not in self.probed:
+                    self.probed.add(('alias', callee))
+                    self.alias_obligation(cx, 'call-' + callee.rsplit('.', 1)[-1])
                 for nm in names:
                     f = dict(ccls.clauses)[nm]
                     kind, prop, note = f._clause
@@ -219,6 +223,7 @@ class FunctionVC:
                                     meta={'clause': C.clause_source_name(ccls, name), 'path': 'normal'}))
             if getattr(self, 'on_normal_exit', None) is not None:
                 self.on_normal_exit(self, ctx)
+            self.alias_obligation(ctx, 'exit')
             self.add(Obligation(self.oid('canary-normal'), 'canary', ctx.pc, False, self.prop))
         else:
             self.notes.append('no normal path')
@@ -281,6 +286,42 @@ class FunctionVC:
         for ob in self.obligations:
             ob.hyp = And_(ax, ob.hyp)
         return self.obligations
+
+    def alias_obligation(self, ctx, where):
+        """the per-player / per-street / per-board containers of the state are different objects: `[[]] * n` or `[deque()] * n` would make
+        every later write to one row show in all of them.  Decided on the symbolic heap itself (cells), no solver needed."""
+        if not self.with_state:
+            return
+        try:
+            obj = ctx.get(self.state_ref)
+        except Exception:   # noqa
+            return
+        shared = []
+        bad_when = []
+
+        def rows_of(ref):
+            c = ctx.heap.get(ref.cell)
+            if isinstance(c, Choice):
+                out = []
+                for g, a in c.alts:
+                    out.append((g, a if isinstance(a, tuple) else (a.slots if isinstance(a, SymSeq) else None)))
+                return out
+            return [(True, c if isinstance(c, tuple) else (c.slots if isinstance(c, SymSeq) else None))]
+        for name, v in obj.fields.items():
+            alts = v.alts if isinstance(v, Choice) else ((True, v),)
+            for g, ref in alts:
+                if not isinstance(ref, Ref) or ref.kind not in ('list', 'deque', 'tuple'):
+                    continue
+                for g2, rows in rows_of(ref):
+                    if rows is None:
+                        continue
+                    cells = [e.cell for e in rows if isinstance(e, Ref)]
+                    if len(cells) >= 2 and len(set(cells)) != len(cells):
+                        shared.append(name)
+                        bad_when.append(And_(g, g2))
+        self.add(Obligation(self.oid(f'rows-are-distinct-objects@{where}'), 'P', ctx.pc, Not_(Or_(*bad_when)) if bad_when else True, self.prop,
+                            meta={'path': 'structure', 'aliased_fields': shared, 'native_fact': True,
+                                  'note': 'rows of a per-player / per-street field share one object' if shared else ''}))
 
     def probe(self, ctx, names, extra, path):
         """evaluate clauses at a program point (used by drivers' cuts): one obligation per clause"""
